@@ -18,6 +18,7 @@ static struct elem pool[MAXN];
 static int N, keys[MAXN], nkeys_alpha, key_alpha[MAXN + 2];
 static int USE_MACRO;   /* odd configurations build the tree with CSTL_RBTREE_INITIALIZER / CSTL_BINTREE_INITIALIZER instead of the init function */
 static int RB, CMPMODE;       /* 0 difference, 1 sign only, 2 reversed */
+static int vcookie, vbad;       /* every visit / clear callback must receive the private pointer the caller passed */
 static char cfgdesc[256];
 static union { struct cstl_bintree bt; struct cstl_rbtree rb; } T[2];
 static int only_prop02;
@@ -122,7 +123,7 @@ static size_t t_size(int t) { return RB ? cstl_rbtree_size(&T[t].rb) : cstl_bint
 static void t_insert(int t, void *e, void *p) { if (RB) cstl_rbtree_insert(&T[t].rb, e, p); else cstl_bintree_insert(&T[t].bt, e, p); }
 static const void *t_find(int t, const void *e, const void **par) { return RB ? cstl_rbtree_find(&T[t].rb, e, par) : cstl_bintree_find(&T[t].bt, e, par); }
 static void *t_erase(int t, const void *e) { return RB ? cstl_rbtree_erase(&T[t].rb, e) : cstl_bintree_erase(&T[t].bt, e); }
-static void t_clear(int t, cstl_xtor_func_t *clr) { if (RB) cstl_rbtree_clear(&T[t].rb, clr, NULL); else cstl_bintree_clear(&T[t].bt, clr, NULL); }
+static void t_clear(int t, cstl_xtor_func_t *clr) { if (RB) cstl_rbtree_clear(&T[t].rb, clr, &vcookie); else cstl_bintree_clear(&T[t].bt, clr, &vcookie); }
 static int t_foreach(int t, cstl_bintree_const_visit_func_t *v, void *p, int rev)
 {
     cstl_bintree_foreach_dir_t d = rev ? CSTL_BINTREE_FOREACH_DIR_REV : CSTL_BINTREE_FOREACH_DIR_FWD;
@@ -137,7 +138,7 @@ static void w_init(void)
     __asan_unpoison_memory_region(pool, sizeof pool);
     memset(pool, 0x5A, sizeof pool);
     for (i = 0; i < N; i++) { pool[i].key = keys[i]; pool[i].idx = i; pool[i].pad = 0x1111; pool[i].tail = 0x2222; m_member[i] = 0; }
-    m_count = 0; wrong_priv = wrong_cmp = 0;
+    m_count = 0; wrong_priv = wrong_cmp = 0; vbad = 0;
     t_build(0); t_init_other(1);
 }
 
@@ -168,7 +169,7 @@ static struct elem *elem_of_bn(const struct cstl_bintree_node *bn)
 static int v_idx[MAXV], v_ord[MAXV], v_n, v_stop_at;
 static int cb_visit(const void *e, cstl_bintree_visit_order_t ord, void *p)
 {
-    (void)p;
+    if (p != (void *)&vcookie) vbad++;
     if (v_n < MAXV) { v_idx[v_n] = idx_of(e); v_ord[v_n] = (int)ord; }
     v_n++;
     if (v_n > 3 * MAXN + 8) return 9999;                 /* watchdog: link cycle */
@@ -179,7 +180,7 @@ static int clr_count[MAXN], clr_bad;
 static void cb_clear(void *e, void *p)
 {
     int i = idx_of(e);
-    (void)p;
+    if (p != (void *)&vcookie) vbad++;
     if (i < 0) { clr_bad++; return; }
     clr_count[i]++;
     if (clr_count[i] == 1) __asan_poison_memory_region(&pool[i], sizeof pool[i]);     /* the callback "frees" the element */
@@ -245,7 +246,7 @@ static void w_apply(mc_op_t o)
         SHIM_CALL(ab, t_clear(0, cb_clear));
         __asan_unpoison_memory_region(pool, sizeof pool);
         if (!ab) {
-            MC_CHECK(PC15 | PC01, clr_bad == 0, "clear called back with a pointer that is no element");
+            MC_CHECK(PC15 | PC01, clr_bad == 0 && vbad == 0, "clear called back with a pointer that is no element or with a wrong private pointer");
             for (i = 0; i < N; i++) MC_CHECK(PC15 | PC01, clr_count[i] == m_member[i], "clear: element %d handed over %d times, expected %d", i, clr_count[i], m_member[i]);
             MC_CHECK(PC15 | PC01, t_size(0) == 0, "clear left size %zu", t_size(0));
             check_fresh();
@@ -335,7 +336,7 @@ static void audit_tree(int t, unsigned props01)
         int seen[MAXN], stage[MAXN], last = -1, count = 0;
         memset(seen, 0, sizeof seen); memset(stage, 0, sizeof stage);
         v_n = 0; v_stop_at = -1;
-        SHIM_CALL(ab, r = t_foreach(t, cb_visit, NULL, rev));
+        SHIM_CALL(ab, r = t_foreach(t, cb_visit, &vcookie, rev));
         if (ab) { MC_CHECK(props01, 0, "foreach aborted"); return; }
         MC_CHECK(props01, r == 0, "foreach(%s) returned %d with an always-zero visitor (%d visits)", rev ? "REV" : "FWD", r, v_n);
         if (mc_branch_dead) return;
@@ -368,7 +369,7 @@ static void audit_tree(int t, unsigned props01)
         /* early stop at every visit index (PRE, MID, POST and LEAF visits alike) */
         for (j = 0; j < vtotal; j++) {
             v_n = 0; v_stop_at = j;
-            SHIM_CALL(ab, r = t_foreach(t, cb_visit, NULL, rev));
+            SHIM_CALL(ab, r = t_foreach(t, cb_visit, &vcookie, rev));
             MC_COUNT(K_EARLY_STOPS);
             MC_CHECK(props01, !ab && r == ((j & 1) ? -(j + 1) : j + 1) && v_n == j + 1, "foreach(%s) with a visitor returning %d at visit #%d returned %d after %d visits", rev ? "REV" : "FWD", (j & 1) ? -(j + 1) : j + 1, j, r, v_n);
             if (mc_branch_dead) return;
@@ -382,6 +383,7 @@ static void w_audit(void)
     audit_tree(0, PC01);
     if (mc_branch_dead) return;
     MC_CHECK(PC01, t_size(1) == 0 && t_bt(1)->root == NULL, "the second (empty) tree object was disturbed");
+    MC_CHECK(PC01 | PC15, vbad == 0, "a visit or clear callback received a private pointer other than the one the caller passed (%d calls)", vbad);
     MC_CHECK(PC01 | PC02, wrong_cmp == 0, "the comparison function of the OTHER (empty) tree object was called %d times: swap did not move the comparator with the content", wrong_cmp);
     MC_CHECK(PC01 | PC02, wrong_priv == 0, "the comparison function received a private pointer other than the one its tree was initialised with (%d calls)", wrong_priv);
     if (RB) {
@@ -438,7 +440,7 @@ static void canon_one(int t)
     { ck_nodes = 0; KB_C('T'); KB_U(t_bt(t)->size); KB_C('o'); KB_U(t_bt(t)->off); if (RB) { KB_C('/'); KB_U(T[t].rb.off); }
       KB_C(t_bt(t)->cmp.func == cmp_elem ? 'e' : t_bt(t)->cmp.func == cmp_other ? 'o' : '?'); KB_C(t_bt(t)->cmp.priv == (void *)&cookie[0] ? '0' : t_bt(t)->cmp.priv == (void *)&cookie[1] ? '1' : '?'); KB_C(':'); ck(t_bt(t)->root); }
 }
-static void w_canon(void) { int i; canon_one(0); canon_one(1); KB_C('m'); for (i = 0; i < N; i++) KB_C(m_member[i] ? '1' : '0'); for (i = 0; i < N; i++) if (pool[i].pad != 0x1111 || pool[i].tail != 0x2222 || pool[i].key != keys[i] || !untouched(&pool[i].rn2, sizeof pool[i].rn2)) { KB_C('X'); KB_U((unsigned)i); } KB_C('w'); KB_U((unsigned)(wrong_cmp != 0)); KB_U((unsigned)(wrong_priv != 0)); }
+static void w_canon(void) { int i; canon_one(0); canon_one(1); KB_C('m'); for (i = 0; i < N; i++) KB_C(m_member[i] ? '1' : '0'); for (i = 0; i < N; i++) if (pool[i].pad != 0x1111 || pool[i].tail != 0x2222 || pool[i].key != keys[i] || !untouched(&pool[i].rn2, sizeof pool[i].rn2)) { KB_C('X'); KB_U((unsigned)i); } KB_C('w'); KB_U((unsigned)(vbad != 0)); KB_U((unsigned)(wrong_cmp != 0)); KB_U((unsigned)(wrong_priv != 0)); }
 /* C15: after clear the tree object must be field-for-field like a never-used tree object of the same configuration */
 static void check_fresh(void)
 {
